@@ -2,8 +2,8 @@
 
 Counted injection points are only
   (a) entry of a Python function defined under numqi/ (`call` event), and
-  (b) loop back-edges inside such a function: a `line` event whose line is the target of a JUMP_BACKWARD*
-      instruction of that code object and does not exceed the previous line of that frame, and
+  (b) loop back-edges inside such a function: the instruction about to execute is a JUMP_BACKWARD of that code object
+      (seen through `opcode` trace events; JUMP_BACKWARD_NO_INTERRUPT is excluded), and
   (c) the normal return of such a function (`return` event with a value): the eval breaker is checked in the caller right
       after the CALL instruction, i.e. after every side effect of the callee and before its result is stored.
 These are a subset of the positions where CPython 3.12 services pending signals, so an exception injected there is
@@ -15,22 +15,14 @@ import sys
 _BACKEDGE_CACHE = {}
 
 
-def _backedge_lines(code):
+def _backedge_offsets(code):
+    """bytecode offsets of the JUMP_BACKWARD instructions of a code object (JUMP_BACKWARD_NO_INTERRUPT does not check the
+    eval breaker and is excluded). Detected through `opcode` trace events, which fire once per executed instruction and do
+    not depend on the interpreter's line-event bookkeeping (line events turned out to depend on what the process had traced
+    before: the determinism self-test caught a 160-vs-161 point count for the same call in a pristine vs a used process)."""
     r = _BACKEDGE_CACHE.get(code)
     if r is None:
-        r = set()
-        off2line = {}
-        cur = None
-        for ins in dis.get_instructions(code):
-            if ins.starts_line is not None:
-                cur = ins.starts_line if not isinstance(ins.starts_line, bool) else ins.positions.lineno
-            off2line[ins.offset] = cur
-        for ins in dis.get_instructions(code):
-            if ins.opname.startswith('JUMP_BACKWARD'):
-                ln = off2line.get(ins.argval)
-                if ln is not None:
-                    r.add(ln)
-        r = frozenset(r)
+        r = frozenset(ins.offset for ins in dis.get_instructions(code) if ins.opname == 'JUMP_BACKWARD')
         _BACKEDGE_CACHE[code] = r
     return r
 
@@ -66,17 +58,14 @@ class Injector:
             if not _is_numqi(code):
                 return None
             hit(frame)
-            be = _backedge_lines(code)
-            prev = [frame.f_lineno]
+            be = _backedge_offsets(code)
+            if be:
+                frame.f_trace_opcodes = True
 
             def local_trace(frame, event, arg):
-                if event == 'line':
-                    ln = frame.f_lineno
-                    if ln in be and ln <= prev[0]:
-                        prev[0] = ln
+                if event == 'opcode':
+                    if frame.f_lasti in be:
                         hit(frame)
-                    else:
-                        prev[0] = ln
                 elif event == 'return' and arg is not None:
                     # (c) a numqi function returns normally: CPython checks the eval breaker in the caller right after the
                     # CALL instruction completes, i.e. after all side effects of the callee and before its value is stored
